@@ -120,7 +120,8 @@ func genCase(t *rapid.T) Case {
 		c.Segs = append(c.Segs, s)
 	}
 	if rapid.IntRange(0, 2).Draw(t, "hasq") > 0 {
-		c.Query = rapid.SampledFrom([]string{"a=1", "a=1&a=2", "x", "x=", "q=%2e%2e%2f", "u=http://" + decoy + "/", "a=b%26c&d", "k=%20v+w", "next=//" + decoy}).Draw(t, "query")
+		c.Query = rapid.SampledFrom([]string{"a=1", "a=1&a=2", "x", "x=", "q=%2e%2e%2f", "u=http://" + decoy + "/", "a=b%26c&d", "k=%20v+w", "next=//" + decoy,
+			"q=llama;phi&limit=5", "a=1;a=2", "a;b", "x=1&&y=2", "s=%3B;t", "p=a:b,c;d'e(f)*!$@/?", "a=b=c", "sp=a%2Bb+c&"}).Draw(t, "query")
 	}
 	return c
 }
@@ -423,9 +424,9 @@ func TestC16(t *testing.T) {
 	}
 	startDecoy()
 	defer rig.StopAll()
-	rec.SetRule("request targets written verbatim by a raw client: clean segments mixed with dot segments, %2e/%252e encodings, encoded slashes/backslashes, empty segments (//), ;params, authority tricks (@decoy, //decoy, absolute-form targets naming a decoy listener), queries carrying URLs; x endpoint base path {'', '/', '/base', '/a/b/', ...} x preserve_path x route prefix (/olla/proxy/ and every routing prefix declared by a shipped profile, in front of an endpoint of the owning type) x engine; a decoy listener must never be contacted, the raw backend's request line is checked for containment under the base path and, for clean targets, for the exact expected path and verbatim query. Plus generated relative/absolute health_check_url and model_url resolved by LoadFromConfig. non-trivial = target with a dot-segment/encoding/slash anomaly with preserve_path on and a nested base path (config: relative path under a nested base); distinct by full case")
+	rec.SetRule("request targets written verbatim by a raw client: clean segments mixed with dot segments, %2e/%252e encodings, encoded slashes/backslashes, empty segments (//), ;params, authority tricks (@decoy, //decoy, absolute-form targets naming a decoy listener), queries carrying URLs and sub-delimiters (; , : ' ( ) * ! $ @ / ?, doubled and trailing &); x endpoint base path {'', '/', '/base', '/a/b/', ...} x preserve_path x route prefix (/olla/proxy/ and every routing prefix declared by a shipped profile, in front of an endpoint of the owning type) x engine; a decoy listener must never be contacted, the raw backend's request line is checked for containment under the base path and, for clean targets, for the exact expected path and verbatim query. Sub-check 'ports': 2..4 endpoints on one machine configured by address or by host name (http://localhost:<port>), with generated base paths, under round-robin: every request Olla attributes to an endpoint was received on that endpoint's own port. Plus generated relative/absolute health_check_url and model_url resolved by LoadFromConfig. non-trivial = target with a dot-segment/encoding/slash anomaly with preserve_path on and a nested base path (config: relative path under a nested base); distinct by full case")
 	rec.Assume("unclean targets may legitimately be answered by the mux's redirect or an error without any backend contact; the Host header sent upstream is the client's (documented) and is not asserted")
-	if ev.Replay(t, rec, "target", runCase) || ev.Replay(t, rec, "config", runCfg) {
+	if ev.Replay(t, rec, "target", runCase) || ev.Replay(t, rec, "config", runCfg) || ev.Replay(t, rec, "ports", runPorts) {
 		return
 	}
 	// deterministic probes (also the reproduction of the listed known finding)
@@ -438,4 +439,5 @@ func TestC16(t *testing.T) {
 	}
 	ev.Check(t, rec, "target", rec.Pick(1500, 20000), genCase, runCase)
 	ev.Check(t, rec, "config", rec.Pick(1500, 20000), genCfg, runCfg)
+	ev.Check(t, rec, "ports", rec.Pick(60, 1500), genPorts, runPorts)
 }
